@@ -450,6 +450,32 @@ func init() {
 					}
 					judgeExpr(c, trees[t], operandData(set), "ternary")
 				}})
+			// a complete expression (ternary, comparison, sum) inside the brackets, braces and parentheses of
+			// literals, indexes and calls: no parentheses of its own are needed there
+			secs = append(secs, core.Section{Name: "expressions-inside-literals-and-calls", Exhaustive: true, N: nOps * 10 * len(operandSets),
+				Run: func(c *core.Ctx, i int) {
+					set := operandSets[i%len(operandSets)]
+					i /= len(operandSets)
+					t := i % 10
+					o1 := binOps[i/10]
+					a, b, cc, d := operand(set, 0, 2), operand(set, 1, 2), operand(set, 2, 2), operand(set, 3, 2)
+					bin := func(op string, x, y model.Expr) model.Expr { return model.Binary{Op: op, L: x, R: y} }
+					ter := func(x, y, z model.Expr) model.Expr { return model.Ternary{C: x, A: y, B: z} }
+					inner := []model.Expr{ter(a, bin(o1, b, cc), d), ter(bin(o1, a, b), cc, ter(d, a, b)), bin(o1, a, b)}[t%3]
+					zero, one := model.Lit{V: model.Int(0)}, model.Lit{V: model.Int(1)}
+					var tree model.Expr
+					switch t {
+					case 0, 1, 2:
+						tree = model.Dot{X: model.ObjLit{Keys: []string{"k", "z"}, Vals: []model.Expr{inner, one}}, Name: "k"}
+					case 3, 4, 5:
+						tree = model.Index{X: model.ArrLit{Elems: []model.Expr{one, inner}}, I: ter(zero, zero, one)}
+					case 6, 7:
+						tree = model.Call{X: model.Lit{V: model.Bool(true)}, Name: "then", Args: []model.Expr{inner, zero}}
+					default:
+						tree = model.Call{X: model.Lit{V: model.Bool(false)}, Name: "then", Args: []model.Expr{zero, ter(zero, one, inner)}}
+					}
+					judgeExpr(c, tree, operandData(set), "inside-literal")
+				}})
 			// chains of member access / index / call / prefix / postfix
 			nb, no := len(memberBases), len(memberOps)
 			secs = append(secs, core.Section{Name: "member-chains", Exhaustive: true, N: nb * (no + no*no + no*no*no),
